@@ -5,7 +5,7 @@ from ..ref import P, L, to32, le
 
 REQUIRED = ['dec:torsion-enc', 'dec:noncanon-y', 'dec:reject', 'dec:accept', 'dec:x0-signbit', 'rel:Q=P', 'rel:Q=-P',
             'rel:Q=P+T', 'rel:indep', 'history', 'pred:identity', 'pred:small', 'pred:mixed', 'pred:prime', 'eq:scaled',
-            'roundtrip', 'sum-empty', 'cond', 'history:scalarmul', 'history:groupview', 'history:viamont']
+            'roundtrip', 'sum-empty', 'cond', 'history:scalarmul', 'history:groupview', 'history:viamont', 'const-operand']
 
 
 class Reg:
@@ -268,6 +268,27 @@ def consts(ctx):
             return 'EIGHT_TORSION is not E[8]'
         return None
     ctx.add('ed.consts', expect=f, trivial=True)
+    # the crate's own point constants used as *operands* (their stored T must be consistent too): the basepoint, the
+    # identity and EIGHT_TORSION[i] (tokens B, I, T0..T7 name the constants themselves, not decoded encodings)
+    rng = ctx.rng
+    for i in range(8):
+        t = ref.TORSION[i]
+        ti = 'T%d' % i
+        ctx.add('ed.id', ti, expect=pts.expect_ed(t), cls='const-operand')
+        ctx.add('ed.add', ti, 'B', expect=pts.expect_ed(ref.aff_add(t, ref.B)), cls='const-operand')
+        ctx.add('ed.add', 'B', ti, expect=pts.expect_ed(ref.aff_add(t, ref.B)), cls='const-operand')
+        ctx.add('ed.sub', 'B', ti, expect=pts.expect_ed(ref.aff_add(ref.B, ref.aff_neg(t))), cls='const-operand')
+        j = rng.randrange(8)
+        ctx.add('ed.add', ti, 'T%d' % j, expect=pts.expect_ed(ref.aff_add(t, ref.TORSION[j])), cls='const-operand')
+        k = rng.randrange(1, 64)
+        ctx.add('ed.mul', ti, sc(k), expect=pts.expect_ed(ref.aff_mul(k % 8, t)), cls='const-operand')
+        enc_ = ref.ed_compress(ref.aff_add(ref.aff_add(t, ref.B), ref.TORSION[j])).hex()
+        ctx.add('ed.sum', lst([ti, 'B', 'T%d' % j]),
+                expect=pts.both(pts.expect_ed(ref.aff_add(ref.aff_add(t, ref.B), ref.TORSION[j])), *[pts.tok_is(i_, enc_) for i_ in (2, 3, 4, 5)]),
+                cls='const-operand')
+        ctx.add('ed.valid', ti, expect=['T'], cls='const-operand')
+    ctx.add('ed.add', 'I', 'B', expect=pts.expect_ed(ref.B), cls='const-operand')
+    ctx.add('ed.dbl', 'B', expect=pts.expect_ed(ref.aff_add(ref.B, ref.B)), cls='const-operand')
     ctx.add('ed.zeroize', 'B', to32(5).hex(), expect=pts.both(pts.expect_ed(ref.IDENT), pts.tok_is(2, to32(1).hex())), trivial=True)
 
 
